@@ -142,6 +142,14 @@ def tie(ctx):
             dist[cls + ":ordered"] += 1
     got = vlib.model(exe, ["order"], inp)
     mism = []
+    # the hypothesis of C08_order_then_backend_erase (annotations add type names only to the dependencies) on every real
+    # resolved program
+    for n, a in zip(names, vlib.model(exe, ["anndeps"], inp)):
+        dist["C08 ann_deps_ok on the real resolver's output: " + a.split(" ")[-1]] += 1
+        if a != "ANNDEPS t":
+            # legitimate on programs the type checker rejects: the resolver lets an annotation name a value
+            # (tests/hm_typing/faulty_namespace_access_blob.sy: `B :: 1 ... b: ns.B = 0`); listed, not a mismatch
+            dist["C08 ann_deps_ok false on: " + n] += 1
     nontrivial = set()
     for n, g, w, i in zip(names, got, want, inp):
         if g == w:
